@@ -165,6 +165,14 @@ theorem await_bounded (s : St) (w : Nat) :
     | none => simp
     | some g => simp only []; cases s.results g <;> simp
 
+/-- the history-based expectation used by the check's predicate and the state machine agree on
+a script that exercises re-initialisation, clearing, late and early completion (the check
+compares the two on every generated script as well) -/
+example :
+    let ops : List Op := [.init "b", .init "a", .await 1 "a", .complete "b" 5, .await 2 "b", .complete "a" 7,
+      .complete "a" 8, .join 1, .clear "a", .await 1 "a", .init "a", .await 1 "a", .init "a", .complete "a" 9, .ctx 1]
+    specObs ops = (exec init ops).2 := by decide
+
 end slots
 
 section builder
